@@ -32,6 +32,8 @@ def pivot():
                       note="numbers followed by a LOWER-case letter inside the identifier (is_i_2c, is_ipv_4addr, is_v_1beta_2, ...)"))
     S.append(EnumSpec("Big257", [U("V%d" % i, disabled=(i == 100)) for i in range(258)],
                       note="257 enabled variants (+1 disabled): any 8-bit variant ordinal wraps"))
+    S.append(EnumSpec("Lower", [U("read", fields=[Field("u8")]), U("reset"), U("rrc", fields=[Field("u16"), Field("u8")]), U("write"), U("r2d2")],
+                      note="C-style lower-case identifiers, several starting with `r`"))
     S.append(EnumSpec("G", [U("A", fields=[Field("T")]), U("B", fields=[Field("T"), Field("u8")]), U("C"), U("D", fields=[Field("T", name="t")], named=True)],
                       generics=GEN, ty_args="<u16>", subst={"T": "u16"}, note="generic payloads"))
     S.append(EnumSpec("Lt", [U("S", fields=[Field("&'a str")]), U("N", fields=[Field("u8")]), U("U")], generics="<'a>", ty_args="<'static>",
